@@ -307,6 +307,69 @@ def r4(R):
                         'position')
 
 
+@rule('C09.R6', 'the last transaction id reported by the sanity check is '
+      'that of the transaction at the saved position, not of one found while '
+      'walking back', props=['C04'], min_instances=1)
+def r6(R):
+    cls = R.prog.cls(FS)
+    f = R.method(cls, '_check_sanity')
+    g, b, F = R.cfg(f, cls, max_depth=0)
+    # the variable returned as the tid
+    rv = set()
+    for x in walk_local(f.node):
+        if isinstance(x, ast.Return) and isinstance(x.value, ast.Name):
+            rv.add(x.value.id)
+    tidvars = set()
+    for x in walk_local(f.node):
+        if isinstance(x, ast.Assign) and isinstance(x.value, ast.Attribute) \
+                and x.value.attr == 'tid' and isinstance(
+                    x.targets[0], ast.Name) and x.targets[0].id in rv:
+            tidvars.add(x.targets[0].id)
+    R.instance('FileStorage._check_sanity', result=sorted(tidvars))
+    if not tidvars:
+        R.violation((f.module.relpath, f.qualname, 'result tid'),
+                    'the sanity check no longer returns the tid of the last '
+                    'transaction')
+        return
+    v = sorted(tidvars)[0]
+
+    def edge(node, st, lab, tgt):
+        # st: None (unset) | 'set' ; `unset_known`: branch established unset
+        val, guard = st
+        if node.kind == 'test' and lab in ('T', 'F'):
+            for e, truth in implied_atoms(node.ast, lab):
+                if isinstance(e, ast.Name) and e.id == v:
+                    guard = not truth
+                if isinstance(e, ast.Compare) and isinstance(
+                        e.left, ast.Name) and e.left.id == v and isinstance(
+                            e.comparators[0], ast.Constant) and \
+                        e.comparators[0].value is None:
+                    guard = isinstance(e.ops[0], ast.Is) == truth
+        if lab != 'e' and node.kind == 'stmt' and isinstance(
+                node.ast, ast.Assign) and any(
+                    isinstance(t, ast.Name) and t.id == v
+                    for t in node.ast.targets):
+            if isinstance(node.ast.value, ast.Constant):
+                return ('unset', False)
+            if val == 'set' and not guard:
+                return Violation(
+                    'the tid reported for the saved index is overwritten '
+                    'while the check walks back over undone or empty '
+                    'transactions: the storage reopens with a last '
+                    'transaction id older than the file\'s, and the next '
+                    'commit can get an id that is not later than the last '
+                    'one')
+            return ('set', False)
+        if node.kind == 'loophead':
+            return (val, False)
+        return (val, guard)
+
+    vs, stats = explore(g, ('unset', False), edge=edge)
+    R.count(stats)
+    for vv in vs:
+        R.violation(vv.node, vv.message, g, vv.path)
+
+
 @rule('C09.R5', 'the index is written to a temporary name and renamed into '
       'place', min_instances=1)
 def r5(R):
